@@ -32,6 +32,10 @@ def run(ctx):
     from ..engines import provenance as PV
     PV.a5_application_discipline(ctx, only={"RecomputingDict.__getitem__"})
     ctx.floor("A5", 2)
+    # insertion keeps every non-empty child label, with multiplicity: recomputation compares against exactly that
+    PV.a4_drop_guard(ctx)
+    PV.a4b_clean_labels_call_site(ctx)
+    ctx.floor("A4", 3)
     # ClassDB calls on the recomputation path must be total for never-labelled classes
     gi = ctx.P.need_method("RecomputingDict", "__getitem__", own=True)
     entry = set()
